@@ -96,12 +96,13 @@ def run (K : Kern α) (inputs : List (α × α)) (recDt : Option α) (dur : α) 
     | some s' => run K inputs recDt dur n s'
 end
 
-/-- the state in which the loop is entered: `inputs.times[0]` raises for an empty schedule -/
-def init (zero : α) (v0 : α) (inputs : List (α × α)) (recDt : Option α) : Option (St α) :=
+/-- the state in which the loop is entered: `inputs.times[0]` raises for an empty schedule; the first
+spike prediction is made for the input current in force before the first change (zero) -/
+def init [Add α] (K : Kern α) (zero : α) (v0 : α) (inputs : List (α × α)) (recDt : Option α) : Option (St α) :=
   match inputs with
   | [] => none
   | (t0, _) :: _ =>
-    some { t := zero, v := v0, amp := zero, idx := 0, nSpike := none, nRec := recDt, nIn := some t0,
-           spikes := [], recs := [] }
+    some { t := zero, v := v0, amp := zero, idx := 0, nSpike := (K.nsp v0 zero).map (zero + ·), nRec := recDt,
+           nIn := some t0, spikes := [], recs := [] }
 
 end NirVerif.Model.EventLoop
